@@ -296,13 +296,17 @@ func (c *Ctx) Finish() int {
 	if c.Assumptions == nil {
 		ev["assumptions"] = []string{}
 	}
-	os.MkdirAll(filepath.Join(Root, "evidence"), 0o755)
+	evdir := filepath.Join(Root, "evidence")
+	if d := os.Getenv("VERIF_EVIDENCE_DIR"); d != "" {
+		evdir = d // runs against deliberately broken trees must not overwrite the evidence of the real tree
+	}
+	os.MkdirAll(evdir, 0o755)
 	js, err := json.MarshalIndent(ev, "", " ")
 	if err != nil {
 		fmt.Println("evidence marshal error:", err)
 		return 2
 	}
-	if err := os.WriteFile(filepath.Join(Root, "evidence", c.ID+".json"), js, 0o644); err != nil {
+	if err := os.WriteFile(filepath.Join(evdir, c.ID+".json"), js, 0o644); err != nil {
 		fmt.Println("evidence write error:", err)
 		return 2
 	}
@@ -318,6 +322,9 @@ func (c *Ctx) Finish() int {
 		return 0
 	}
 	dir := filepath.Join(Root, "replays", c.ID)
+	if d := os.Getenv("VERIF_REPLAY_DIR"); d != "" {
+		dir = filepath.Join(d, c.ID) // runs against deliberately broken trees keep their replays apart
+	}
 	os.MkdirAll(dir, 0o755)
 	for _, v := range c.viols {
 		h := sha1.Sum([]byte(v.Key))
